@@ -184,6 +184,26 @@ def run(tier, seed):
                 keep = cx.path("abnormal_%d.txt" % cx.evaluations)
                 open(keep, "w").write("argv: %s\nstderr:\n%s\n" % (j[2], r["stderr"][-3000:]))
     cx.cov["sanitizer_reports"] = sanit
+    # memcheck pass (uninitialised memory): an evenly spread subset of the same jobs on the plain build under valgrind
+    plain = build.gm2calc_x("plain")
+    nmc = 64 if tier == "quick" else 1200
+    step = max(1, len(jobs) // nmc)
+    sub = [(j, r) for j, r in list(zip(jobs, results))[rnd.randrange(step)::step] if not r["timeout"] and not r["signal"]]
+
+    def vg(jr):
+        j = jr[0]
+        return cli.run("valgrind", ["-q", "--error-exitcode=97", "--track-origins=no", plain] + list(j[2]), stdin=j[3], timeout=600)
+    with ThreadPoolExecutor(max_workers=16) as ex:
+        vres = list(ex.map(vg, sub))
+    with open(tr, "a") as fh:
+        for (j, r), v in zip(sub, vres):
+            reports = len(re.findall(r"(?m)^==\d+== (?:Conditional jump|Use of uninitialised|Invalid read|Invalid write|Syscall param|Invalid free|Mismatched free)", v["stderr"]))
+            fh.write(json.dumps({"e": "Memcheck", "vgexit": v["exit"], "reports": reports, "timeout": v["timeout"], "exit": r["exit"],
+                                 "sig": "memcheck/" + j[4]}) + "\n")
+            cx.evaluations += 1
+            if v["exit"] == 97 or reports:
+                open(cx.path("memcheck_%d.txt" % cx.evaluations), "w").write("argv: %s\nstderr:\n%s\n" % (j[2], v["stderr"][-4000:]))
+    cx.cov["memcheck_runs"] = len(sub)
     # split: a Case line and its Run line must stay together
     lines = open(tr).read().splitlines()
     groups, i = [], 0
@@ -204,7 +224,7 @@ def run(tier, seed):
         cx.add_report(rep)
     cx.sample({"case": cases[len(cases) // 2], "argv": jobs[len(cases) // 2][2]})
     cx.sample({"fuzz_input_signature": jobs[-1][4], "argv": jobs[-1][2]})
-    cx.assumptions += ["memory safety / UB are observed, not derived: the replayed binary is the ASan+UBSan(+float-cast-overflow) build with leak check, any report is an abnormal exit (98/99) or a signal",
+    cx.assumptions += ["memory safety / UB are observed, not derived: the replayed binary is the ASan+UBSan(+float-cast-overflow) build with leak check, any report is an abnormal exit (98/99) or a signal; uninitialised memory: a subset of the same runs under valgrind memcheck on the plain build",
                        "stdout abstraction function harness/lib/cli.py:classify",
                        "'for any byte sequence' is sampled; exhaustive only over the abstract environments of CLI.tla"]
     return cx.finish(rule="environments of CLI.tla enumerated by TLC (CLIGen.tla: all argv up to 2 tokens, every single "
